@@ -214,6 +214,37 @@ func checkAgainstRef(c *core.Ctx, prop string, p *Program, args []ugo.Object, st
 	return true, r
 }
 
+// c02destructMatrix: array destructuring never modifies its right-hand side, whatever the relation between the number
+// of targets and the length / spare capacity of the array, and whoever else shares that array's storage.
+func c02destructMatrix() []*Program {
+	var out []*Program
+	setups := []struct{ pre, holder, rhs string }{
+		{"a := [1, 2, 3]\nb := a[:1]", "a", "b"},
+		{"a := [1, 2, 3, 4]\nb := a[1:2]", "a", "b"},
+		{"head := append([1, 2], 3)\nlog := append(head, 4)", "log", "head"},
+		{"a := [1, 2, 3]\nmk := func() { return a[:2] }", "a", "mk()"},
+		{"a := [[1, 2, 3][:1], 7]", "a", "a[0]"},
+		{"a := [1, 2, 3]\nb := a[:0]", "a", "b"},
+	}
+	for _, su := range setups {
+		for n := 1; n <= 5; n++ {
+			names := make([]string, n)
+			for i := range names {
+				names[i] = fmt.Sprintf("t%d", i)
+			}
+			list := strings.Join(names, ", ")
+			for _, form := range []string{list + " := " + su.rhs, "var (" + list + ")\n" + list + " = " + su.rhs, "var " + list + " = " + su.rhs} {
+				if strings.HasPrefix(form, "var "+list+" =") && n > 1 {
+					continue // not a destructuring form
+				}
+				src := "global L\n" + su.pre + "\n" + form + "\nL(" + list + ")\nL(" + su.holder + ")\nwrap := func() {\n  " + strings.ReplaceAll(form, "\n", "\n  ") + "\n  return [" + list + "]\n}\nL(wrap())\nreturn [" + su.holder + ", " + su.rhs + "]\n"
+				out = append(out, &Program{Src: src, Tags: []string{"destructuring-matrix"}})
+			}
+		}
+	}
+	return out
+}
+
 func (m c02) Run(c *core.Ctx) {
 	if c.Replay != nil {
 		var w c02wit
@@ -245,6 +276,7 @@ func (m c02) Run(c *core.Ctx) {
 	for _, src := range gen.RecursionTryMatrix() {
 		fixed = append(fixed, &Program{Src: src, Tags: []string{"recursion-try-matrix"}})
 	}
+	fixed = append(fixed, c02destructMatrix()...)
 	nMatrix := len(fixed)
 	for form := 0; form < 2; form++ {
 		for _, src := range gen.TailMixPrograms("", form) {
